@@ -1,7 +1,7 @@
 #!/bin/bash
 # like run_refactors.sh but on scratch copies of /repo (never touches /repo; patches run J at a time)
 # usage: run_refactors_copy.sh [-j N] [patch.diff ...]
-cd /verif
+cd /verif; export FPV_EXTRACT_SLOTS=${FPV_EXTRACT_SLOTS:-8}
 J=6; if [ "$1" = "-j" ]; then J=$2; shift 2; fi
 PROPS=$(python3 -c "import json;print(' '.join(c['property_id'] for c in json.load(open('MANIFEST.json'))['checks']))")
 one() {
